@@ -64,6 +64,116 @@ print('CONFIRMED' if sym_err > 1e-3 else 'NOT-CONFIRMED')
 """
 
 
+_WITNESS_SEEDS = r"""
+import logging
+import numpy as np
+from scipy.integrate import solve_ivp
+def jac(x, y, z, mu):
+    mu1 = 1.0 - mu
+    r1 = np.sqrt((x + mu) ** 2 + y * y + z * z)
+    r2 = np.sqrt((x - mu1) ** 2 + y * y + z * z)
+    r13, r23 = r1 ** 3, r2 ** 3
+    r15, r25 = r1 ** 5, r2 ** 5
+    Uxx = 1 - mu1 / r13 - mu / r23 + 3 * mu1 * (x + mu) ** 2 / r15 + 3 * mu * (x - mu1) ** 2 / r25
+    Uyy = 1 - mu1 / r13 - mu / r23 + 3 * mu1 * y * y / r15 + 3 * mu * y * y / r25
+    Uzz = -mu1 / r13 - mu / r23 + 3 * mu1 * z * z / r15 + 3 * mu * z * z / r25
+    Uxy = 3 * mu1 * (x + mu) * y / r15 + 3 * mu * (x - mu1) * y / r25
+    Uxz = 3 * mu1 * (x + mu) * z / r15 + 3 * mu * (x - mu1) * z / r25
+    Uyz = 3 * mu1 * y * z / r15 + 3 * mu * y * z / r25
+    F = np.zeros((6, 6))
+    F[0, 3] = F[1, 4] = F[2, 5] = 1.0
+    F[3, 0], F[3, 1], F[3, 2] = Uxx, Uxy, Uxz
+    F[4, 0], F[4, 1], F[4, 2] = Uxy, Uyy, Uyz
+    F[5, 0], F[5, 1], F[5, 2] = Uxz, Uyz, Uzz
+    F[3, 4] = 2.0
+    F[4, 3] = -2.0
+    return F
+
+
+def rhs42(t, Y, mu):
+    s = Y[:6]
+    Phi = Y[6:].reshape(6, 6)
+    x, y, z, vx, vy, vz = s
+    mu1 = 1.0 - mu
+    r13 = ((x + mu) ** 2 + y * y + z * z) ** 1.5
+    r23 = ((x - mu1) ** 2 + y * y + z * z) ** 1.5
+    ax = x - mu1 * (x + mu) / r13 - mu * (x - mu1) / r23 + 2 * vy
+    ay = y - mu1 * y / r13 - mu * y / r23 - 2 * vx
+    az = -mu1 * z / r13 - mu * z / r23
+    dPhi = jac(x, y, z, mu) @ Phi
+    return np.concatenate(([vx, vy, vz, ax, ay, az], dPhi.ravel()))
+
+
+def monodromy_at(x_start, period, mu):
+    # monodromy matrix of the periodic orbit based at x_start (scipy DOP853)
+    Y0 = np.concatenate((x_start, np.eye(6).ravel()))
+    sol = solve_ivp(rhs42, (0.0, period), Y0, args=(mu,), method="DOP853", rtol=1e-12, atol=1e-13)
+    return sol.y[6:, -1].reshape(6, 6)
+
+
+def floquet_dir(M, stable):
+    w, V = np.linalg.eig(M)
+    k = np.argmin(np.abs(w)) if stable else np.argmax(np.abs(w))
+    v = np.real(V[:, k])
+    return w[k].real, v / np.linalg.norm(v)
+
+
+def jacobi(s, mu):
+    x, y, z, vx, vy, vz = s
+    mu1 = 1.0 - mu
+    r1 = np.sqrt((x + mu) ** 2 + y * y + z * z)
+    r2 = np.sqrt((x - mu1) ** 2 + y * y + z * z)
+    return x * x + y * y + 2 * (mu1 / r1 + mu / r2) - (vx * vx + vy * vy + vz * vz)
+
+
+def angle_deg(a, b):
+    c = abs(np.dot(a, b)) / (np.linalg.norm(a) * np.linalg.norm(b))
+    return np.degrees(np.arccos(min(1.0, c)))
+
+
+
+
+def reference_orbit(orbit, mu, n=2000):
+    x0 = np.asarray(orbit.initial_state, float)
+    T = float(orbit.period)
+    ref = solve_ivp(lambda t, s: rhs42(t, np.concatenate((s, np.eye(6).ravel())), mu)[:6], (0, T), x0,
+                    method="DOP853", rtol=1e-12, atol=1e-13, t_eval=np.linspace(0, T, n))
+    return ref.y.T
+
+
+
+from hiten.system import System
+logging.disable(logging.CRITICAL)
+system = System.from_bodies("earth", "moon")
+mu = system.mu
+orbit = system.get_libration_point(1).create_orbit("halo", amplitude_z=0.2, zenith="southern")
+orbit.correct()
+T = float(orbit.period)
+pts = reference_orbit(orbit, mu)
+bad = []
+for stable in (True, False):
+    man = orbit.manifold(stable=stable, direction="positive")
+    man.compute(step=0.25, integration_fraction=0.2, displacement=1e-6, show_progress=False)
+    for i, traj in enumerate(man.trajectories):
+        seed = np.asarray(traj.states[0], float)
+        j = int(np.argmin(np.linalg.norm(pts - seed, axis=1)))
+        d = seed - pts[j]
+        lam, v = floquet_dir(monodromy_at(pts[j], T, mu), stable)
+        ang = angle_deg(d, v)
+        t = np.asarray(traj.times, float)
+        backward = bool(t[-1] < 0 and np.all(np.diff(t) < 0))
+        # independent re-integration of the seed in the claimed time direction
+        ref = solve_ivp(lambda tt, ss: rhs42(tt, np.concatenate((ss, np.eye(6).ravel())), mu)[:6], (0.0, float(t[-1])), seed,
+                        method="DOP853", rtol=1e-12, atol=1e-13)
+        miss = float(np.max(np.abs(ref.y[:, -1] - np.asarray(traj.states[-1], float))))
+        print("stable" if stable else "unstable", "seed", i, "angle to the true Floquet direction %.4f deg" % ang,
+              "multiplier %.4g" % lam, "times decreasing" if backward else "times increasing", "end-state mismatch %.2e" % miss)
+        if ang > 0.5 or backward != stable or miss > 1e-4:
+            bad.append((stable, i))
+print("CONFIRMED" if bad else "NOT-CONFIRMED", bad)
+"""
+
+
 def run(chk):
     loader.install()
     chk.under_contract(MS + ":_ManifoldDynamicsService.__init__", MS + ":_ManifoldDynamicsService.compute_stm",
@@ -317,3 +427,25 @@ def run(chk):
             ctx.check("canary", z3.BoolVal(len(sn) == 1) == (zv(lam) < 1 - zv(delta)))   # forgets |.|
         Explorer("canary").run(b).verdict("canary")
     chk.canary("canary: classification without the absolute value must fail", canary)
+
+    # ---- the flow that transports the seeds must be the DIRECTED one (shared with C10: same real _propagate_dynsys) -------
+    from contracts import C10
+    chk.under_contract("hiten.algorithms.dynamics.base:_propagate_dynsys")
+    C10._times(chk, only={("fixed", -1), ("adaptive", -1)})
+
+    # ---- bounded native witness (thorough): the assembled computation on one orbit, against an independent integrator -----
+    if chk.tier == "thorough":
+        def th_witness():
+            from pyvc.core import native
+            out = native(_WITNESS_SEEDS, timeout=3000)
+            if "NOT-CONFIRMED" not in out:
+                raise Refuted("seeds-off-the-floquet-direction:" + out.strip().splitlines()[-1], out[-2500:],
+                              replay=_WITNESS_SEEDS)
+        chk.obl("BOUNDED native witness: Earth-Moon L1 halo (Az = 0.2), 4 phases x {stable, unstable}: every seed is displaced "
+                "along the Floquet direction computed independently (scipy DOP853 monodromy at the seed's base point, angle < "
+                "0.5 deg), stable branches carry decreasing times and re-integrating the seed reproduces the end state",
+                "bounded (native witness)", [MS + ":_ManifoldDynamicsService._run_compute", LB + ":_LinalgBackend.eigenvalue_decomposition"],
+                "native execution", th_witness)
+        chk.bounded.append({"what": "assembled manifold seeds vs an independent Floquet direction", "bound": "one Earth-Moon L1 "
+                            "halo orbit, 4 phases, both stabilities, float arithmetic (sees eigen-solver noise, which A1 does "
+                            "not)", "counted_as_proved": False})
